@@ -208,13 +208,13 @@ package linux
 // end behind the [APPEND] rules (prependPos / appendPos are the two insert
 // positions; loopold(e) is e at loop entry).
 //vc:func (*config).MergeSpoc
-//vc:  invariant[C18] 3 "for appendPos" @onlyDropsBehindAppendPos forall j int :: { aChain.rules[j] } appendPos <= j && j < len(aChain.rules) ==> ("-j" in aChain.rules[j].pairs) && aChain.rules[j].pairs["-j"] == "DROP"
-//vc:  invariant[C18] 3 "for appendPos" 0 <= appendPos && appendPos <= len(aChain.rules) && prependPos == 0 && len(aChain.rules) == loopold(len(aChain.rules))
-//vc:  invariant[C18] 4 "for _, ru := range bChain.rules" @appendDirectlyBehindLastOtherRule loopold(appendPos) == 0 || !(loopold("-j" in aChain.rules[appendPos - 1].pairs) && loopold(aChain.rules[appendPos - 1].pairs["-j"]) == "DROP")
-//vc:  invariant[C18] 4 "for _, ru := range bChain.rules" @nothingLost len(aChain.rules) == loopold(len(aChain.rules)) + rangeindex + 1 && -1 <= rangeindex
-//vc:  invariant[C18] 4 "for _, ru := range bChain.rules" @insertPositions 0 <= prependPos && prependPos <= rangeindex + 1 && appendPos == loopold(appendPos) + rangeindex + 1 && prependPos <= appendPos && loopold(appendPos) <= loopold(len(aChain.rules)) && 0 <= loopold(appendPos)
-//vc:  invariant[C18] 4 "for _, ru := range bChain.rules" @originalRulesStayTogether forall j int :: { aChain.rules[prependPos + j] } 0 <= j && j < loopold(appendPos) ==> aChain.rules[prependPos + j] == loopold(aChain.rules[j])
-//vc:  invariant[C18] 4 "for _, ru := range bChain.rules" @trailingDropsStayLast forall j int :: { loopold(aChain.rules[j]) } loopold(appendPos) <= j && j < loopold(len(aChain.rules)) ==> aChain.rules[j + rangeindex + 1] == loopold(aChain.rules[j])
+//vc:  invariant[C18,C05] 3 "for appendPos" @onlyDropsBehindAppendPos forall j int :: { aChain.rules[j] } appendPos <= j && j < len(aChain.rules) ==> ("-j" in aChain.rules[j].pairs) && aChain.rules[j].pairs["-j"] == "DROP"
+//vc:  invariant[C18,C05] 3 "for appendPos" 0 <= appendPos && appendPos <= len(aChain.rules) && prependPos == 0 && len(aChain.rules) == loopold(len(aChain.rules))
+//vc:  invariant[C18,C05] 4 "for _, ru := range bChain.rules" @appendDirectlyBehindLastOtherRule loopold(appendPos) == 0 || !(loopold("-j" in aChain.rules[appendPos - 1].pairs) && loopold(aChain.rules[appendPos - 1].pairs["-j"]) == "DROP")
+//vc:  invariant[C18,C05] 4 "for _, ru := range bChain.rules" @nothingLost len(aChain.rules) == loopold(len(aChain.rules)) + rangeindex + 1 && -1 <= rangeindex
+//vc:  invariant[C18,C05] 4 "for _, ru := range bChain.rules" @insertPositions 0 <= prependPos && prependPos <= rangeindex + 1 && appendPos == loopold(appendPos) + rangeindex + 1 && prependPos <= appendPos && loopold(appendPos) <= loopold(len(aChain.rules)) && 0 <= loopold(appendPos)
+//vc:  invariant[C18,C05] 4 "for _, ru := range bChain.rules" @originalRulesStayTogether forall j int :: { aChain.rules[prependPos + j] } 0 <= j && j < loopold(appendPos) ==> aChain.rules[prependPos + j] == loopold(aChain.rules[j])
+//vc:  invariant[C18,C05] 4 "for _, ru := range bChain.rules" @trailingDropsStayLast forall j int :: { loopold(aChain.rules[j]) } loopold(appendPos) <= j && j < loopold(len(aChain.rules)) ==> aChain.rules[j + rangeindex + 1] == loopold(aChain.rules[j])
 
 // ---- C05: normal form of rule options ----
 // What normalisation may do to the value v of option k (w is the result):
